@@ -92,9 +92,9 @@ def _params(b):
 def hop_a(R, ctx, rule, slots):
     """try_build_state: slot -> builder field"""
     f = ctx.f
-    b = ctx.body(r'FileLogWriterBuilder::try_build_state$')
     NEW = r'file_log_writer::state::State::new$'
     nb = ctx.body(NEW)
+    b = state_builder(ctx, rule)
     I = FDI(f, effects=[NEW], no_inline=[NEW])
     cfgf = [n for n, _t in _struct_fields(f, 'writers::file_log_writer::config::FileLogWriterConfig')]
     ptys = [nb.locals[i]['ty'] for i in range(1, nb.arg_count + 1)]
@@ -153,6 +153,34 @@ def hop_a(R, ctx, rule, slots):
     return slot2bf
 
 
+def state_builder(ctx, rule='wiring'):
+    """the builder method that hands the configuration to State::new: discovered by that effect (its name is private), helpers it calls are inlined"""
+    f = ctx.f
+    c = []
+    for b in f.fn_bodies():
+        if b.kind == 'Closure' or not b.path.startswith(FLWB + '::'):
+            continue
+        if any(callee_name(t).endswith('file_log_writer::state::State::new') for _bb, t in b.calls()):
+            c.append(b)
+    if len(c) != 1:
+        # a private helper assembles the state: take the method(s) that reach it and are reached from try_build
+        tb = ctx.opt_body(r'FileLogWriterBuilder::try_build$')
+        reach = ctx.cg.reachable([tb.path], spawn=False) if tb else set()
+        c = [b for b in c if b.path in reach]
+    if len(c) != 1:
+        raise CheckError(f"{rule}: the builder function that calls State::new is not unique ({[b.path for b in c]})")
+    b = c[0]
+    # if it is a helper with parameters other than self (e.g. assemble_state(&self, flag)), use its only caller inside the builder instead
+    guard = 0
+    while b.arg_count != 1 and guard < 3:
+        guard += 1
+        callers = sorted({root_fn(a) for (a, _bb, _k) in ctx.cg.callers.get(b.path, []) if root_fn(a).startswith(FLWB + '::')})
+        if len(callers) != 1:
+            raise CheckError(f"{rule}: state assembling helper {b.path} has callers {callers}")
+        b = f.bodies[callers[0]]
+    return b
+
+
 def _split_top(s):
     out, d, cur = [], 0, ''
     for ch in s:
@@ -198,7 +226,7 @@ def hop_e_fields(R, ctx, rule):
     slot2bf = {}
     for name in ('try_build', 'try_build_with_handle'):
         b = ctx.body(r'FileLogWriterBuilder::' + name + '$')
-        I = FDI(f, effects=[NEW], no_inline=[NEW, r'try_build_state$', r'new_with_handle$'])
+        I = FDI(f, effects=[NEW], no_inline=[NEW, re.escape(state_builder(ctx, rule).path) + '$', r'new_with_handle$'])
         bad = None
         n = 0
         for r in I.run(b.path):
